@@ -96,12 +96,11 @@ Fixpoint inR (c : ctx) (e o : expr) {struct e} : bool :=
   end.
 
 (* ---------- the premise of the idempotence theorem (ParensIdem.v, C06) ---------- *)
-(* starts with a unary minus, looking through parentheses and type assertions *)
-Fixpoint sn (e : expr) : bool := match e with Un Neg _ => true | Paren x | Assert x => sn x | _ => false end.
-(* guard-free: no unary minus in front of such an operand, anywhere *)
+(* no unary minus is written directly in front of something that starts with a unary minus (`- -x`, `- -x :: T`): the guard
+   never fires on the expression as written *)
 Fixpoint gf (e : expr) : bool :=
   match e with
-  | Un u x => (match u with Neg => negb (sn x) | _ => true end) && gf x
+  | Un u x => (match u with Neg => negb (starts_neg x) | _ => true end) && gf x
   | Paren x | Assert x | IfE x => gf x
   | Bin _ l r => gf l && gf r
   | Atom | Multi => true
